@@ -189,7 +189,7 @@ def run(ctx):
                     bad.append("<= is not (< or ==)")
         if bad:
             ctx.violation("eval", case, i[:300], "; ".join(bad), f"expression {EXPR}")
-        mc = (m or "NONE")
+        mc = (m or "NONE").split("\t")[0]
         if mc != i:
             # model and implementation differ on an observable of this property
             if not bad:
